@@ -80,6 +80,12 @@ void vsim_plain_read(const void* p);  // explicit check (clang build / uninstrum
 void vsim_plain_write(const void* p);
 uint64_t vsim_hb_checked(void);
 void vsim_hb_enable(int on);
+// Library memory under the happens-before check: while switched on, every anonymous mapping the code under test makes
+// (LargeArray, NUMA arrays, page-pool pages) is "watched": unordered conflicting plain accesses by two threads, and
+// atomic accesses unordered with conflicting plain ones, are reported as hb-race / hb.library-data-race.
+void vsim_hb_watch_mmaps(int on);
+void vsim_hb_watch(const void* p, size_t len);   // watch an existing range
+void vsim_hb_unwatch_all(void);
 // label the current phase of the harness (shows up in race reports)
 void vsim_phase(const char* label);
 
